@@ -239,6 +239,36 @@ func vpRelations(e *env, r *ev.Run, iss, hold, other *party, replay bool, rc cas
 			}
 		}
 	}
+	// four credentials in every order over the kinds that differ in HOW they are (un)acceptable (thorough)
+	if r.Thorough() || (replay && strings.Count(strings.Split(rc.Doc, "|")[0], "+") >= 2) {
+		var small []credKind
+		for _, k := range kinds {
+			switch k.Name {
+			case "valid", "tampered", "stripped", "self-no-proof", "revoked", "jwt-valid":
+				small = append(small, k)
+			}
+		}
+		for _, a := range small {
+			for _, b := range small {
+				for _, c := range small {
+					for _, d := range small {
+						for _, holder := range []*ssi.URI{nil, &hURI} {
+							run([]credKind{a, b, c, d}, hold, holder)
+						}
+					}
+				}
+			}
+		}
+		// triples for the other signer / holder relations
+		for _, a := range small {
+			for _, b := range small {
+				for _, c := range small {
+					run([]credKind{a, b, c}, other, nil)
+					run([]credKind{a, b, c}, hold, &oURI)
+				}
+			}
+		}
+	}
 	r.Bound("vp_relation_cases", n)
 }
 
